@@ -9,7 +9,7 @@ use codespan_reporting::diagnostic::Diagnostic;
 use indexmap::IndexMap;
 use itertools::Itertools;
 use path_dedot::ParseDot;
-use std::cell::RefCell;
+use std::cell::{Cell, RefCell};
 use std::collections::HashMap;
 use std::fmt::{Binary, Debug, Display, Formatter, LowerHex};
 use std::path::PathBuf;
@@ -69,6 +69,10 @@ pub struct ParserInstance {
     /// Pending imports, in the order in which they appear in the source (so the order in which
     /// files are discovered does not depend on hash seeds)
     pub to_import: Arc<RefCell<IndexMap<PathBuf, Span>>>,
+    /// How deeply nested (blocks, parentheses, function calls, config maps) is the thing being parsed right now?
+    pub nesting: Arc<Cell<usize>>,
+    /// Was the 'nested too deeply' error reported for this file already?
+    pub nesting_exceeded: Arc<Cell<bool>>,
 }
 
 impl ParserInstance {
@@ -77,6 +81,8 @@ impl ParserInstance {
             shared_state: state,
             current_file,
             to_import: Arc::new(RefCell::new(IndexMap::new())),
+            nesting: Arc::new(Cell::new(0)),
+            nesting_exceeded: Arc::new(Cell::new(false)),
         }
     }
 
